@@ -57,6 +57,7 @@ PROPS = {
     },
     "C10": {
         "units": ["prover"],
+        "bounded_checks": ["prover"],
         "level": "other",
         "property_obligations": ["verdict", "Status::status_of_word", "lemma_all_proven_step", "reveal_status_words"],
         "carriers": [],
@@ -76,6 +77,7 @@ PROPS = {
     },
     "C20": {
         "units": ["files"],
+        "bounded_checks": ["files"],
         "level": "other",
         "property_obligations": ["Files::left", "Files::right", "Files::program", "Files::user_guide", "Files::proof_outline", "Files::specification", "sort_one", "lemma_swap"],
         "carriers": [],
@@ -205,6 +207,7 @@ PROPS = {
     },
     "C11": {
         "units": ["ensure"],
+        "bounded_checks": ["applic"],
         "level": "other",
         "property_obligations": ["ExternalEquivalenceTask::ensure_program_tightness", "ExternalEquivalenceTask::ensure_placeholder_name_uniqueness",
                                  "ExternalEquivalenceTask::ensure_specification_roles_are_supported", "ExternalEquivalenceTask::ensure_valid_formula_representation",
@@ -255,6 +258,7 @@ PROPS = {
     },
     "C13": {
         "units": ["outline", "seq"],
+        "bounded_checks": ["applic", "external"],
         "level": "other",
         "property_obligations": ["Formula::inductive_lemma", "lemma_induction", "lemma_induct", "lemma_ucl_valid",
                                  "Formula::definition", "AssembledExternalEquivalenceTask::forward_outline", "AssembledExternalEquivalenceTask::backward_outline", "lemma_outline_index", "lemma_def_ok", "lemma_definition_conservative", "lemma_pred_coin_cl", "lemma_preds_cover", "lemma_extend_len"],
@@ -300,7 +304,7 @@ PROPS = {
     },
     "C16": {
         "units": ["tptpnum", "ensure", "ext", "subst", "tau", "nat", "outline", "seq", "strong", "gamma", "break", "simp_int", "simp_cl", "apply", "problem", "prover", "files"],
-        "bounded_checks": ["external"],
+        "bounded_checks": ["external", "applic"],
         "level": "other",
         "property_obligations": ["numeral_arm", "callsite_roles_checked_before_routing"],
         "carriers": [],
@@ -319,6 +323,7 @@ PROPS = {
     },
     "C17": {
         "units": ["subst"],
+        "bounded_checks": ["subst"],
         "level": "proof",
         "property_obligations": ["Formula::substitute", "theorem_c17", "lemma_subst_cl", "lemma_rename_step", "lemma_subst_under_block", "lemma_loop_init",
                                  "lemma_loop_keep", "lemma_loop_rename", "lemma_loop_final", "lemma_subst_atomic", "lemma_subst_unary", "lemma_subst_binary",
